@@ -1,4 +1,5 @@
-/- Cases for C16 (doc comments): engine `comments` (stream `C16`) and engine `compile`, projection `c16:docs` (stream `C16p`). -/
+/- Cases for C16 (doc comments): engine `comments` (stream `C16`) and engine `compile`, projection `c16:docs` (stream `C16p`).
+   Every case's expectation is the model's exact output (= the property's demand, `Props/C16.parse_eq_spec`). -/
 import SlicecVerif.Model.Comment
 import SlicecVerif.Model.CommentDocs
 import SlicecVerif.Drv.Prog
@@ -82,8 +83,8 @@ def genMessageLines (ids : List String) (st : IndentStyle) (maxLines : Nat) (all
       let extra ← (do if ← coin 1 3 then genIndent st else pure "")
       let ind ← (do if ← coin 1 6 then genIndent st else pure base)
       let body ← genLineBody ids
-      -- a line whose first non-blank character is `{` makes the first text component all-whitespace (D-16b): keep those rarer
-      let body ← (do if body.startsWith "{" && (← coin 3 4) then pure ((← pickG ["See ", "w ", "é "]) ++ body) else pure body)
+      -- a line whose first non-blank character is `{` has an all-whitespace first text (its whole length is indentation)
+      let body ← (do if body.startsWith "{" && (← coin 1 3) then pure ((← pickG ["See ", "w ", "é "]) ++ body) else pure body)
       ls := ls ++ [ind ++ extra ++ body]
   return ls
 
@@ -133,49 +134,18 @@ def malformedLines : List String :=
    "{@ link X}", "{@link X}", "@param x", "@see\u3000X", "  @", "\u3000@see X", "x @", "@returns x:", "@returns x :y", "@see X @see Y", "@param x }",
    "{@returns}", "{@see X}", "{@foo}", "{@link1 X}", "{@linkX}", "@params x", "@seeX", "@returns1", "@param x_: m", "@param _x"]
 
-/-! ## classification of a case: model (the code as it is) vs what the property demands -/
+/-! ## one case: the expectation is the model's exact output, which is the property's (`Props/C16.parse_eq_spec`) -/
 
-/-- how a comment is classified: the model of the code as it is vs what the property demands -/
-inductive Verdict where
-  | agree (expected : String)                       -- code (as modelled) = property (up to text segmentation): expect the model's exact output
-  | known (fam : String) (demanded : String) (asIs : Option String)   -- they differ: the property's value, and the code's (none = panic)
-
-def sameUpToMerge (a b : Outcome CErr DocC) : Bool :=
-  match a, b with
-  | .ok a, .ok b => a.merged == b.merged
-  | .err _, .err _ => true
-  | .panic _, .panic _ => true
-  | _, _ => false
-
-/-- D-16a = byte offsets instead of characters (panic, or a different amount stripped); D-16b = a first component that is
-    all whitespace counts as indentation 0 -/
-def classify (ls : List String) : Verdict :=
+/-- `doc` case: expected = the model of the comment parser as it is. By `parse_eq_spec` this is also what the property's
+    stripping rule demands; the equality is re-checked here on every generated comment, so that a model that follows a source
+    which went back to byte offsets (`Gen.sanitizeCountsChars = false`) shows up as model counterexamples with the comment. -/
+def docCase (o : Out) (fam : String) (ls : List String) : IO Unit := do
   let m := parseComment (strs ls)
+  o.line (tab ["doc", fam, linesField ls, outcomeS m])
   let s := parseCommentSpec (strs ls)
-  if sameUpToMerge m s then .agree (outcomeS m)
-  else
-    let fam := if sameUpToMerge m (parseCommentChars (strs ls)) then "known-d16b" else "known-d16a"
-    .known fam (match s with | .ok c => docS c.merged | o => outcomeS o) (if m.isPanic then none else some (outcomeS m))
-
-structure Caps where
-  d16a : IO.Ref Nat
-  d16b : IO.Ref Nat
-  limit : Nat
-
-/-- known-finding cases are capped (the runner prints at most 200 DIFF lines per stream); beyond the cap the case is still run
-    against the model of the code as it is (family `asis-…`), unless the code panics on it -/
-def docCase (o : Out) (caps : Caps) (fam : String) (ls : List String) : IO Unit := do
-  match classify ls with
-  | .agree exp => o.line (tab ["doc", fam, linesField ls, exp])
-  | .known k demanded asIs =>
-    let ctr := if k == "known-d16a" then caps.d16a else caps.d16b
-    if (← ctr.get) < caps.limit then
-      ctr.modify (· + 1)
-      o.line (tab ["docm", k, linesField ls, demanded])
-    else
-      match asIs with
-      | some e => o.line (tab ["doc", "asis-" ++ (k.drop 6).toString ++ "-" ++ fam, linesField ls, e])
-      | none => pure ()
+  if outcomeS m != outcomeS s then
+    o.line (tab ["K", "doc", fam, linesField ls,
+      "the model of sanitize_message_lines gives " ++ outcomeS m ++ " but the property's stripping rule demands " ++ outcomeS s])
 
 def lexCase (o : Out) (fam : String) (ls : List String) : IO Unit :=
   o.line (tab ["lex", fam, linesField ls, lexOutS (lexComment (strs ls))])
@@ -191,9 +161,29 @@ def runG {α} (act : G α) (r : Rng) : α × Rng :=
   let (a, st) := act.run { rng := r }
   (a, st.rng)
 
+/-- indentations of the grids: ASCII, 2-byte, 3-byte and mixed-width whitespace -/
+def gridIndents : List String :=
+  asciiIndents ++ ws2 ++ ws3 ++ ["\u00A0 ", "\u3000 ", " \u3000", " \u00A0", "\u3000\u3000", "\u0085\u3000"]
+
+/-- a smaller set for the families that multiply with several shapes -/
+def fewIndents : List String := ["", " ", "   ", "\t ", "\u00A0", "\u3000", " \u3000", "\u3000\u00A0 ", "\u0085  "]
+
+/-- all strings of at most `n` whitespace characters over a 1-byte, a 2-byte and a 3-byte one -/
+def wsStrings : Nat → List String
+  | 0 => [""]
+  | n + 1 => let r := wsStrings n; r ++ (r.filter (·.length == n)).flatMap fun s => [" ", "\u00A0", "\u3000"].map fun c => s ++ c
+
+/-- pairs of indentations whose order by number of characters and by number of UTF-8 bytes disagree
+    (fewer characters but more bytes): the minimum taken in bytes picks the wrong line -/
+def orderFlipPairs (n : Nat) : List (String × String) :=
+  let ws := (wsStrings n).filter (· != "")
+  ws.flatMap fun a => (ws.filter fun b => a.length < b.length && a.utf8ByteSize > b.utf8ByteSize).map fun b => (a, b)
+
+/-- tag lines whose continuation lines are stripped together -/
+def contHeads : List String := ["@param p: inline", "@param p", "@returns", "@returns r: {@link A::B} x", "  @param p:"]
+
 def genC16 (tier : Tier) (seed : Nat) (o : Out) : IO Unit := do
   let thorough := tier == .thorough
-  let caps : Caps := { d16a := ← IO.mkRef 0, d16b := ← IO.mkRef 0, limit := 40 }
   -- 1. the empty comment (`Lexer::new` panics; the Slice parser never gets there)
   o.line (tab ["doc", "empty", "~", outcomeS (parseComment [])])
   -- 2. bounded-exhaustive single lines over lexical pieces: token stream and parse result
@@ -202,44 +192,89 @@ def genC16 (tier : Tier) (seed : Nat) (o : Out) : IO Unit := do
     if !s.isEmpty then
       let l := String.join s
       lexCase o "lex-exh" [l]
-      docCase o caps "line-exh" [l]
+      docCase o "line-exh" [l]
   -- 3. the defect catalogue: alone, after an overview line, before a tag, and pairwise
   for m in malformedLines do
     lexCase o "lex-malformed" [m]
-    docCase o caps "malformed" [m]
-    docCase o caps "malformed" [" Overview.", m]
-    docCase o caps "malformed" [m, " @param x: y"]
-    docCase o caps "malformed" ["@param x: y", "  more", m]
-    docCase o caps "malformed" [" a", m, " b", "@see X"]
+    docCase o "malformed" [m]
+    docCase o "malformed" [" Overview.", m]
+    docCase o "malformed" [m, " @param x: y"]
+    docCase o "malformed" ["@param x: y", "  more", m]
+    docCase o "malformed" [" a", m, " b", "@see X"]
   if thorough then
     for m in malformedLines do
       for m2 in malformedLines do
-        docCase o caps "malformed2" [m, m2]
+        docCase o "malformed2" [m, m2]
   -- 4. two-line indentation grid: every pair of (indent, indent) from ASCII and non-ASCII whitespace
-  let inds := asciiIndents ++ ws2 ++ ws3 ++ ["\u00A0 ", "\u3000 ", " \u3000", " \u00A0", "\u3000\u3000", "\u0085\u3000"]
+  let inds := gridIndents
   for a in inds do
     for b in inds do
-      docCase o caps "indent-grid" [a ++ "x", b ++ "y"]
+      docCase o "indent-grid" [a ++ "x", b ++ "y"]
       if thorough then
-        docCase o caps "indent-grid" [a ++ "x", "", b ++ "y z", a ++ b ++ "w"]
-        docCase o caps "indent-grid" ["@param p:" ++ a ++ "x", b ++ "y", a ++ "z"]
-  -- 5. lines that start with a link / whitespace-only lines next to indented text (D-16b)
-  for a in asciiIndents do
-    for b in asciiIndents do
-      docCase o caps "link-start" [a ++ "first", b ++ "{@link S} second"]
-      docCase o caps "ws-only" [a ++ "first", b, a ++ "third"]
-      docCase o caps "link-start" ["@returns:" ++ a ++ "{@link S} x", b ++ "{@link T}", b ++ a ++ "y"]
-  -- 6. pseudo-random structured comments
-  let n := if thorough then 30000 else 2200
+        docCase o "indent-grid" [a ++ "x", "", b ++ "y z", a ++ b ++ "w"]
+        docCase o "indent-grid" ["@param p:" ++ a ++ "x", b ++ "y", a ++ "z"]
+  -- 5. lines that start with a link after their indentation / whitespace-only lines next to indented text:
+  --    `b` shorter than, equal to and longer than the common indentation, in every width
+  for a in inds do
+    for b in inds do
+      docCase o "link-start" [a ++ "first", b ++ "{@link S} second"]
+      docCase o "ws-only" [a ++ "first", b, a ++ "third"]
+      if thorough || (asciiIndents.contains a && asciiIndents.contains b) then
+        docCase o "link-start" ["@returns:" ++ a ++ "{@link S} x", b ++ "{@link T}", b ++ a ++ "y"]
+  -- 6. messages in which no line has content: whitespace-only lines (and empty lines) only
+  for a in inds do
+    docCase o "ws-only-all" [a]
+    for b in inds do
+      docCase o "ws-only-all" [a, b]
+      if thorough then
+        docCase o "ws-only-all" [a, "", b]
+        docCase o "ws-only-all" ["", a, b, ""]
+  -- 7. whitespace followed by a link (or by a `{`, which starts a text of its own) as the first / the only indented line
+  for a in inds do
+    docCase o "ws-link" [a ++ "{@link S}"]
+    docCase o "ws-link" [a ++ "{@link S} tail", a]
+    docCase o "ws-link" [a ++ "{curly} x"]
+    for b in inds do
+      docCase o "ws-link" [a ++ "{@link S}", b ++ "text"]
+      docCase o "ws-link" [a ++ "{@link S} tail", b ++ "{ @link A::B }"]
+      if thorough then
+        docCase o "ws-link" [b ++ "text", a ++ "{@link S}", b, a ++ b ++ "{x} {@link T}"]
+        docCase o "ws-link" [a ++ "{curly}", b ++ "{@link S}{@link T}", "{@link U}"]
+  -- 8. mixed-width indentation where the order by characters and the order by bytes disagree
+  for (a, b) in orderFlipPairs (if thorough then 5 else 4) do
+    docCase o "order-flip" [a ++ "x", b ++ "y"]
+    docCase o "order-flip" [b ++ "y", "", a ++ "{@link S} x", b]
+    if thorough then
+      docCase o "order-flip" [b ++ "{@link S}", a ++ "x", a ++ b]
+  -- 9. the same inside the continuation lines of block tags (stripped per tag, independently of the overview)
+  let cinds := if thorough then inds else fewIndents ++ ["\u2003\u2003", "      ", "\u00A0\u00A0"]
+  for h in contHeads do
+    for a in cinds do
+      docCase o "cont-ws-all" [h, a]
+      docCase o "cont-ws-link" [h, a ++ "{@link S}"]
+      for b in cinds do
+        docCase o "cont-indent" [h, a ++ "x", b ++ "y"]
+        docCase o "cont-ws-only" [h, a ++ "x", b, a ++ "z"]
+        docCase o "cont-ws-all" ["   over", h, a, b]
+        docCase o "cont-ws-link" [" over", h, a ++ "{@link S} t", b ++ "y", "@see X"]
+    for (a, b) in orderFlipPairs (if thorough then 4 else 3) do
+      docCase o "cont-order-flip" [h, a ++ "x", b ++ "y"]
+      docCase o "cont-order-flip" ["  ov", h, b ++ "{@link S}", a ++ "x", b]
+  -- `@throws` is not a tag of this grammar: the comment is malformed whatever follows
+  for a in fewIndents do
+    docCase o "throws-unknown" ["@throws E: x", a ++ "cont"]
+    docCase o "throws-unknown" [" ov", a ++ "@throws E", a ++ "cont"]
+  -- 10. pseudo-random structured comments
+  let n := if thorough then 30000 else 4000
   let mut r := Rng.mk' (seed + 16)
   for i in [0:n] do
-    let st : IndentStyle := match i % 8 with | 0 | 1 | 2 | 3 => .ascii | 4 => .wide2 | 5 => .wide3 | _ => .mixed
-    let (ls, r') := runG (genComment st (i % 5 == 0)) r
+    let st : IndentStyle := match i % 8 with | 0 | 1 | 2 => .ascii | 3 | 4 => .wide2 | 5 => .wide3 | _ => .mixed
+    let (ls, r') := runG (genComment st (i % 2 == 0)) r
     r := r'
     let fam := match st with | .ascii => "random-ascii" | .wide2 => "random-wide2" | .wide3 => "random-wide3" | .mixed => "random-mixed"
-    docCase o caps fam ls
+    docCase o fam ls
     if i % 4 == 0 then lexCase o "lex-random" ls
-  -- 7. a well-formed comment with one malformed line spliced in at every position
+  -- 11. a well-formed comment with one malformed line spliced in at every position
   let nm := if thorough then 3000 else 300
   for i in [0:nm] do
     let (ls, r') := runG (genComment .ascii false) r
@@ -247,7 +282,7 @@ def genC16 (tier : Tier) (seed : Nat) (o : Out) : IO Unit := do
     let (k, r') := r.below (ls.length + 1)
     r := r'
     let bad := malformedLines.getD (i % malformedLines.length) "@"
-    docCase o caps "spliced" (ls.take k ++ [bad] ++ ls.drop k)
+    docCase o "spliced" (ls.take k ++ [bad] ++ ls.drop k)
 
 /-! ## whole programs (engine `compile`, projection `c16:docs`) -/
 
@@ -281,11 +316,11 @@ def genElemDoc (t : Table) (e : DocElem) : G (List String) := do
     | .operation ps rs => ps ++ rs ++ ["nope"]
     | _ => ["x", "f0"]
   let tagIds := if tagIds.isEmpty then ["x"] else tagIds
-  let st : IndentStyle := if c == 7 then .wide3 else if c == 8 then .mixed else .ascii
+  let st : IndentStyle := if c == 7 then .wide3 else if c == 8 || c == 12 then .mixed else if c == 13 then .wide2 else .ascii
   -- identifiers in tags must lex as identifiers: keep only plain ones
   let tagIds := tagIds.filter fun s => isIdentLike s
   let tagIds := if tagIds.isEmpty then ["x"] else tagIds
-  let ls ← genCommentWith ids tagIds st (c == 9)
+  let ls ← genCommentWith ids tagIds st (c == 9 || c == 12 || c == 14)
   if c == 10 || c == 11 then
     -- a malformed line spliced in
     let k ← below (ls.length + 1)
@@ -333,8 +368,6 @@ def decorate16 (p : Program) : G Program := do
 def genC16p (tier : Tier) (seed : Nat) (o : Out) : IO Unit := do
   let thorough := tier == .thorough
   let nProg := if thorough then 8000 else 700
-  let capA ← IO.mkRef 0
-  let capB ← IO.mkRef 0
   let mut r := Rng.mk' (seed + 1616)
   for i in [0:nProg] do
     let cfg : GenCfg := { maxFiles := 1 + i % 2, maxDefs := 2 + i % 4, typeDepth := i % 2, docs := false, foreignAttrs := false }
@@ -343,20 +376,12 @@ def genC16p (tier : Tier) (seed : Nat) (o : Out) : IO Unit := do
     r := r''
     let style := if i % 3 == 2 then 1 + i % 5 else 0
     let texts := p.map fun f => (render style (seed * 1000 + i) (fileItems f)).1
+    let fam := if style == 0 then "docs" else "docs-layout"
+    -- expected = the model of the code as it is (`none` = a comment makes the parser panic: `attach_total` says never)
     let asIs := docsDump p
-    let spec := docsDumpSpec p
-    if asIs == spec then
-      match asIs with
-      | some e => o.line (compileCase (if style == 0 then "docs" else "docs-layout") "c16:docs" "-" texts e)
-      | none => pure ()
-    else
-      let (fam, ctr) := if asIs == docsDumpChars p then ("known-d16b", capB) else ("known-d16a", capA)
-      if (← ctr.get) < 25 then
-        ctr.modify (· + 1)
-        o.line (compileCase fam "c16:docs" "-" texts (spec.getD "panic"))
-      else
-        match asIs with
-        | some e => o.line (compileCase ("asis-" ++ (fam.drop 6).toString) "c16:docs" "-" texts e)
-        | none => pure ()
+    o.line (compileCase fam "c16:docs" "-" texts (asIs.getD "panic"))
+    if asIs != docsDumpSpec p then
+      o.line (tab ["K", "compile", fam, "|".intercalate (texts.map hexOfString),
+        "the model of sanitize_message_lines and the property's stripping rule give different c16:docs dumps"])
 
 end Slicec.Drv
